@@ -15,10 +15,12 @@ template<class T> constexpr long cval(const T& v)
     if constexpr (std::is_same_v<T, ctpg::term_value<char>>) return long((unsigned char)v.get_value()) + 1000L * v.get_column() + 100000L * v.get_line();
     else if constexpr (std::is_same_v<T, ctpg::term_value<std::string_view>>) return long(v.get_value().size()) * 7 + long((unsigned char)v.get_value()[0]) + 1000L * v.get_column() + 100000L * v.get_line();
     else if constexpr (std::is_same_v<T, ctpg::no_type>) return 7;
+    else if constexpr (std::is_same_v<T, ctpg::term_value<long>>) return v.get_value() + 1000L * v.get_column() + 100000L * v.get_line();
     else return long(v);
 }
 template<int R> struct H { template<class... A> constexpr long operator()(const A&... a) const { long h = R * 1000003L + 17; ((h = (h * 31 + cval(a)) % 2147483647L), ...); return h; } };
 struct CCtx { long k; };
+struct TTc { constexpr long operator()(std::string_view sv) const { return long(sv.size()) * 13 + (sv.size() ? long((unsigned char)sv[0]) : 0); } };
 template<int R> struct HX { template<class C, class... A> constexpr long operator()(const C& c, const A&... a) const { long h = R * 1000003L + c.k; ((h = (h * 31 + cval(a)) % 2147483647L), ...); return h; } };
 template<class O> constexpr long ov(const O& o) { return o.has_value() ? *o : NONE; }
 inline std::string last_exc;
@@ -49,6 +51,10 @@ def emit_one(g, gi, inputs, ctx):
         else:
             o.append('constexpr char pat%d[] = %s;' % (j, eg.cstr(t.text)))
             o.append('constexpr regex_term<pat%d> t%d(%s, %d, %s);' % (j, j, eg.cstr(t.name or ('T%d' % j)), t.prec, eg.ASSOC[t.assoc])); ref = 't%d' % j
+        if t.typed:
+            if ref[0] in '\'"':
+                o.append('constexpr %s t%d(%s);' % ('char_term' if t.kind == 'c' else 'string_term', j, ref)); ref = 't%d' % j
+            o.append('constexpr typed_term tt%d(%s, vf::TTc{});' % (j, ref)); ref = 'tt%d' % j
         tref.append(ref)
     rules = []
     for ri, r in enumerate(g.rules):
@@ -105,13 +111,14 @@ def pick_inputs(g, tb, rnd, n):
     datas = []
     for s in seqs:
         if len(s) > 24: continue
-        d = b''.join(g.terms[t].text.encode('latin-1') + (b' ' if rnd.random() < 0.15 else b'') for t in s)
-        datas.append(d)
+        from .pipeline import tok_bytes
+        d = tok_bytes(g, s, rnd, ws=0.15, wschars=b'  \t\n')
+        if len(d) <= 48: datas.append(d)
     pos = [d for d in datas if model.expect(g, tb, d).ok]
     neg = [d for d in datas if not model.expect(g, tb, d).ok]
     rnd.shuffle(pos); rnd.shuffle(neg)
     out = pos[: n // 2] + neg[: n // 3]
-    alph = ''.join(t.text for t in g.terms)
+    alph = ''.join(t.text for t in g.terms if t.kind != 'r') or 'a'
     for _ in range(n - len(out)):
         base = rnd.choice(pos) if pos else b''
         i = rnd.randrange(len(base) + 1)
